@@ -5,6 +5,9 @@ import (
 	"github.com/jsightapi/jsight-schema-core/errs"
 )
 
+// maxExponent is the largest absolute exponent value NewNumber accepts.
+const maxExponent = 1_000_000
+
 type scanner struct {
 	stateFn func(byte) bool
 
@@ -73,6 +76,10 @@ func (s *scanner) setExp(value bytes.Bytes) error {
 	exp, err := value.SubLow(s.expBegin).ParseInt()
 	if err != nil {
 		return err
+	}
+	if exp > maxExponent || exp < -maxExponent {
+		// The digits are materialised: an unbounded exponent means unbounded memory.
+		return errs.ErrIncorrectExponentValue.F()
 	}
 	// example with negative exp: 12.34E-1 = 1.234; exp = -1; intLen = 2 + (-1) = 1
 	// example with positive exp: 12.34E+1 = 123.4; exp =  1; intLen = 2 + 1    = 3
